@@ -13,7 +13,7 @@ import (
 )
 
 var sqlNameAlpha = []string{"t", "users", "a", "b", "c", "a\"b", "a`b", "x\"; DROP TABLE t; --", "we ird", "q'q", "back\\slash",
-	"semi;colon", "dash--dash", "Sepal.Length", "a.b", ".x", "x.", "a.b.c", " lead", "trail ", "nb\u00a0", "\tt", " t", "t ", " ", "", "growth%", "margin %d", "100%s %v", "/*c*/", "\"", "`", "\"\"", "é", "A", "col 1", "sel\"ect\"", "a\"\"b", "$1", "?",
+	"semi;colon", "dash--dash", "a\x1fb", "q\"\x1f", "`\x1fz", "NULL VALUES (", "a VALUES b", "date", "text", "Sepal.Length", "a.b", ".x", "x.", "a.b.c", " lead", "trail ", "nb\u00a0", "\tt", " t", "t ", " ", "", "growth%", "margin %d", "100%s %v", "/*c*/", "\"", "`", "\"\"", "é", "A", "col 1", "sel\"ect\"", "a\"\"b", "$1", "?",
 	"abcdefghijklmnopqrstuvwxyzabcdefghijklmnopqrstuvwxyzabcdefghij\"z", "abcdefghijklmnopqrstuvwxyzabcdefghijklmnopqrstuvwxyzabcdefghijk`z"}
 
 type sqlwScenario struct {
@@ -97,11 +97,32 @@ func genSqlwScenario(r *Rng, names bool) sqlwScenario {
 	if wide {
 		sc.opts.BatchSize = Pick(r, []int{0, 1000, n, 900})
 	}
+	if !wide && !names && r.Intn(150) == 0 {
+		// long and sparse: a column that is nil for its first 1000+ rows and holds non-text values afterwards
+		m := Pick(r, []int{1100, 1500})
+		d := make([]any, m)
+		for i := 1005; i < m; i++ {
+			d[i] = Pick(r, []any{i, 2.5, true, time.Date(2020, 1, 1, 0, 0, 0, 0, utc)})
+		}
+		ids := make([]any, m)
+		for i := range ids {
+			ids[i] = i
+		}
+		df = dataframe.NewDataFrame()
+		df.Columns["id"] = &dataframe.Column[any]{Name: "id", Data: ids}
+		df.Columns["late"] = &dataframe.Column[any]{Name: "late", Data: d}
+		sc.df = df
+		sc.opts.TypeMap, sc.typeMapKV = nil, nil
+		sc.opts.BatchSize = Pick(r, []int{0, 500, 1000})
+	}
 	if r.Chance(25) && ncols > 0 {
 		sc.opts.TypeMap = map[string]string{}
 		for _, k := range df.ColumnNames() {
 			if r.Bool() {
-				v := Pick(r, []string{"VARCHAR(255)", "INTEGER PRIMARY KEY", "NUMERIC(10, 2)", "TEXT"})
+				v := Pick(r, []string{"VARCHAR(255)", "INTEGER PRIMARY KEY", "NUMERIC(10, 2)", "TEXT", "DATE NOT NULL", "TEXT NOT NULL", "date"})
+				if isWord(k) && r.Chance(15) {
+					v = k + " TEXT" // a type text that happens to start with the column's own name (type text is the caller's SQL, taken verbatim)
+				}
 				sc.opts.TypeMap[k] = v
 				sc.typeMapKV = append(sc.typeMapKV, [2]string{k, v})
 			}
@@ -267,7 +288,7 @@ func genSqlw(r *Rng, id string, mode string) []string {
 			// the error VALUE of the failing call varies: plain, context-wrapping, bad connection, sql sentinels
 			faultKindNext = 0
 			if r.Chance(50) {
-				faultKindNext = r.Range(1, 6)
+				faultKindNext = r.Range(1, 7)
 			}
 			st, cs := runSqlw(sc, k)
 			faultKindNext = 0
@@ -316,4 +337,16 @@ func itoa(i int) string {
 		i /= 10
 	}
 	return s
+}
+
+func isWord(s string) bool {
+	if s == "" {
+		return false
+	}
+	for _, c := range s {
+		if !(c >= 'a' && c <= 'z' || c >= 'A' && c <= 'Z') {
+			return false
+		}
+	}
+	return true
 }
